@@ -117,4 +117,8 @@ def ExitStep.needsLock : ExitStep → Bool
 /-- `__exit__` blocks forever iff it reaches a step that needs the lock while a dead worker holds it -/
 def exitHangs (lockLost : Bool) (steps : List ExitStep) : Bool := lockLost && steps.any ExitStep.needsLock
 
+/-- a worker's `update_progress`: with the lock lost, the unrepaired code waits forever; the repaired one
+    gives up after a bounded wait and drops the update (`repaired = false` is the code before fix F14) -/
+def workerUpdateBlocks (repaired lockLost : Bool) : Bool := !repaired && lockLost
+
 end B2Z.Sched
